@@ -45,11 +45,11 @@ def _contract(name, fn, op=None, min_rank=0):
         sa, sb = ch.choose("shapes", pairs)
         ka = ch.choose("kind_x", T.kinds_for(sa))
         kb = ch.choose("kind_y", T.kinds_for(sb))
-        forms = ["np.%s(x, y)" % name] + (["x %s y" % op] if op else []) + (["x.dot(y)"] if name == "dot" and ka == "arr" else [])
+        forms = ["np.%s(x, y)" % name] + (["x %s y" % op] if op else []) 
         expr = ch.choose("form", forms)
         return Case(name, expr, dict(x=T.arr(sa, kind=ka), y=T.arr(sb, kind=kb)),
                     dict(ranks="%d,%d" % (len(sa), len(sb)), kinds=ka + "," + kb, form=expr.split("(")[0][:6],
-                         max_rank=max(len(sa), len(sb))), family="K")
+                         max_rank=max(len(sa), len(sb)), both_1d=(len(sa) == 1 and len(sb) == 1)), family="K")
     return s
 
 
